@@ -273,6 +273,39 @@ def check(ctx):
                           "error log of the same results",
            len(call) == 1 and call[0][2] == (gel_f, gel_t),
            detail=short(call[0]) if call else "", stmt="summary logs")
+    # reported sample sizes: warm-up size = total duration of the warm-up epochs (fast and
+    # slow adaptation AND burn-in), posterior size = the stored posterior samples
+    from .c07 import epoch_types_where
+    from ..domains import concrete as _cc
+    ws = ri.env.vars.get("warmup_size")
+    ok_ws, ws_detail = False, short(ws or (), 120)
+    if ws is not None and is_call(ws, "numpy.sum", "sum", "jax.numpy.sum") and ws[2] \
+            and ws[2][0][0] == "comp" and len(ws[2][0][3]) == 1:
+        comp = ws[2][0]
+        tgt, it, conds = comp[3][0]
+        ep = ("iter", it)
+        src_ok = it == ("call", ("a", ("a", n("results"), "positions"), "get_epochs"), (), ())
+        if comp[2] == ("a", ep, "duration") and len(conds) == 1 and src_ok:
+            try:
+                got_w = epoch_types_where(repo, conds[0], ("a", ep, "type"))
+                ok_ws = got_w == {"FAST_ADAPTATION", "SLOW_ADAPTATION", "BURNIN"}
+                ws_detail = f"counted epoch types {sorted(got_w)}"
+            except _cc.Unmodelled as e:
+                ws_detail = f"unmodelled {e}"
+    si = ri.env.vars.get("sample_info")
+    ok_si = False
+    if si is not None and si[0] == "dict":
+        ent = {k[1]: v for k, v in si[1] if k[0] == "c"}
+        ok_si = (ent.get("warmup_size_per_chain") == ws
+                 and ent.get("num_chains", ())[:1] == ("s",) and ent["num_chains"][2] == c(0)
+                 and ent.get("sample_size_per_chain", ())[:1] == ("s",)
+                 and ent["sample_size_per_chain"][2] == c(1)
+                 and ent["num_chains"][1] == ent["sample_size_per_chain"][1])
+    ctx.ob("C19.R2", ini, "the reported warm-up size is the total duration of ALL warm-up "
+                          "epochs of the stored chain (fast / slow adaptation and burn-in); "
+                          "chains and posterior sample size are the two leading axes of a "
+                          "stored posterior array", ok_ws and ok_si, detail=ws_detail,
+           unproven="unmodelled" in ws_detail, stmt="sample sizes " + ws_detail[:80])
     edf = method(repo, sm, "_error_df", own=True)
     src = ast.unparse(edf.node)
     ren = "'count_per_chain': 'total'" in src and "'count_per_chain_posterior': 'posterior'" in src
